@@ -171,10 +171,30 @@ def drive_patterned(args):
     U = ('n', rng.choice([1, 2]))
     twod = rng.random() < 0.4
     vals = {'real': [0, 0, 1, 1, 2], 'log': [0, 0, 1, 1, 2], 'mp': [NINF, NINF, -1, 0, 1], 'bool': [0, 1]}[kind]
-    sa = PT.gen_pattern(rng, [T, T], default=ZERO[kind], start_id=1)
+    # every other case: a and b draw their physical axes from ONE typed pool, so b may name PhysicalAxis objects of a
+    # (a PhysicalAxis is only a name; inside multi_solve blocks created by fill-in share the axes of their factors)
+    shared = i % 2 == 1
+    pool = PT.Pool(rng, 0.5, 1) if shared else None
+    sa = PT.gen_pattern(rng, [T, T], default=ZERO[kind], start_id=1, pool=pool)
     sa['ph'] = [rng.choice(vals) for _ in sa['ph']]
-    sb = PT.gen_pattern(rng, [T, U] if twod else [T], default=ZERO[kind], start_id=50)
+    sb = PT.gen_pattern(rng, [T, U] if twod else [T], default=ZERO[kind], start_id=50, pool=pool)
     sb['ph'] = [rng.choice(vals) for _ in sb['ph']]
+    tagx = ['shared_axes'] if shared else []
+    if i % 6 == 5:
+        # the "swap" matrix a[(p,q),(q,p)] = w[p,q] against b[(p,0)] (one-hot second component), b naming a's axis k or not
+        m = rng.choice([2, 3])
+        n = m * m
+        P = lambda i_: {'k': 'P', 'id': i_, 'n': m}
+        sa = {'ps': [{'id': 1, 'n': m}, {'id': 2, 'n': m}], 'vs': [{'k': 'X', 'fs': [P(1), P(2)]}, {'k': 'X', 'fs': [P(2), P(1)]}], 'd': ZERO[kind],
+              'ph': [rng.choice(vals + [vals[-1]]) for _ in range(m * m)]}
+        if kind in ('real', 'log'):
+            sa['ph'] = [1 if (q // m) < (q % m) else 0 for q in range(m * m)]       # w[p,q] only for p < q: no cycle (p,q) -> (q,p) -> (p,q)
+        kb = 1 if shared else 7
+        onehot = {'k': 'S', 'b': 0, 't': {'k': 'X', 'fs': []}, 'a': m - 1}
+        sb = {'ps': [{'id': kb, 'n': m}], 'vs': [{'k': 'X', 'fs': [P(kb), onehot]}], 'd': ZERO[kind],
+              'ph': [rng.choice([v for v in vals if v != ZERO[kind]] or vals) for _ in range(m)]}
+        twod = False
+        tagx = tagx + ['swap']
     if i % 3 == 0:
         # pair-indexed systems: unknowns are pairs (i,j), A[(i,j),(j,l)] = w[i,j,l], b sparse: the support
         # of A^k b keeps growing for several rounds
@@ -192,8 +212,11 @@ def drive_patterned(args):
         twod = False
     mk = lambda st: PT.build({'ps': st['ps'], 'vs': st['vs'], 'd': AG._to_float(st['d'], kind), 'ph': [AG._to_float(v, kind) for v in st['ph']]},
                              torch.bool if kind == 'bool' else dtype)
-    c = case_base(kind, dtype, 'pt_solve', n, [], [], tag=['patterned_operands'])
+    c = case_base(kind, dtype, 'pt_solve', n, [], [], tag=['patterned_operands'] + tagx)
     try:
+        axes = {}
+        mk = lambda st: PT.build({'ps': st['ps'], 'vs': st['vs'], 'd': AG._to_float(st['d'], kind), 'ph': [AG._to_float(v, kind) for v in st['ph']]},
+                                 torch.bool if kind == 'bool' else dtype, axes=(axes if shared else None))
         pa, pb = mk(sa), mk(sb)
         from .c07 import to_carrier
         c['A'] = to_carrier(pa.to_dense(), kind)
@@ -314,6 +337,70 @@ def drive_multi(args):
     return c
 
 
+def drive_near_one(args):
+    """Log semiring, a cycle whose weight is 1 - 2^-k (log-weight log1p(-2^-k), for large k simply -2^-k, down to the
+    smallest subnormal): the least solution of x = a x + 1 is 2^k, i.e. k ln 2 in the log domain.  One unknown with a
+    self-loop, and two unknowns on a 2-cycle; through Semiring.solve, PatternedTensor.solve and multi_solve."""
+    import torch
+    from fggs.indices import PatternedTensor
+    from fggs.multi import MultiTensor, multi_solve
+    k, dtname, shape = args
+    dtype = getattr(torch, dtname)
+    sr = AG.semiring_for('log', dtype)
+    c = {'what': 'near_one', 'k': k, 'obs': [], 'out': 'ok', 'unchanged': True, 'tag': ['log', dtname, 'near_one', shape]}
+    ninf = -math.inf
+    try:
+        x = math.log1p(-2.0 ** -k)
+        if shape == 'loop':
+            a = torch.tensor([[x]], dtype=dtype)
+            b = torch.tensor([0.0], dtype=dtype)
+            want = [0]
+        else:
+            h = -2.0 ** -(k + 1)                       # two edges of log-weight -2^-(k+1): the cycle weighs exp(-2^-k)
+            a = torch.tensor([[ninf, h], [h, ninf]], dtype=dtype)
+            b = torch.tensor([0.0, ninf], dtype=dtype)
+            want = [0, 1]
+        if float(a.max()) == 0.0:
+            return None                                # not representable in this format: the cycle would weigh exactly 1
+        before = snapshot([a, b])
+        with warnings.catch_warnings():
+            warnings.simplefilter('ignore')
+            obs = []
+            r1 = sr.solve(a, b)
+            obs += [float(r1[i]) for i in want]
+            r2 = PatternedTensor(a).solve(PatternedTensor(b), sr).to_dense()
+            obs += [float(r2[i]) for i in want]
+            n = a.shape[0]
+            shp = {j: torch.Size(()) for j in range(n)}
+            A = MultiTensor((shp, shp), sr)
+            B = MultiTensor(shp, sr)
+            for i_ in range(n):
+                if float(b[i_]) != ninf:
+                    B[i_] = PatternedTensor(b[i_].clone(), default=ninf)
+                for j_ in range(n):
+                    if float(a[i_, j_]) != ninf:
+                        A[i_, j_] = PatternedTensor(a[i_, j_].clone(), default=ninf)
+            r3 = multi_solve(A, B)
+            obs += [float(r3[i].to_dense()) for i in want]
+        c['unchanged'] = snapshot([a, b]) == before
+        enc = lambda v: NAN if math.isnan(v) else (INF if v == math.inf else (NINF if v == -math.inf else int(round(v * 1000))))
+        c['obs'] = [enc(v) for v in obs]
+    except Exception as e:  # noqa
+        c['out'] = 'raise:' + type(e).__name__
+        c['err'] = str(e)[:160]
+    return c
+
+
+def near_one_jobs(tier):
+    ks64 = [1, 2, 3, 10, 24, 25, 30, 52, 53, 54, 55, 60, 64, 100, 500, 1000, 1022, 1023, 1073, 1074]
+    ks32 = [1, 2, 3, 10, 23, 24, 25, 26, 30, 60, 100, 126, 127, 148, 149]
+    if tier == 'thorough':
+        ks64, ks32 = list(range(1, 1075, 7)) + ks64, list(range(1, 150)) 
+    jobs = [(k, 'float64', sh) for k in ks64 for sh in ('loop', 'cycle2') if not (sh == 'cycle2' and (k < 30 or k >= 1074))]
+    jobs += [(k, 'float32', sh) for k in ks32 for sh in ('loop', 'cycle2') if not (sh == 'cycle2' and (k < 30 or k >= 149))]
+    return jobs
+
+
 def run(tier, seed):
     o = Outcome(PID, tier, seed)
     o.assumptions = ['entries on the exact carriers; real-valued systems with spectral radius < 1 only through quarter-valued matrices with a TLC-verified contraction certificate and an integer solution',
@@ -328,6 +415,9 @@ def run(tier, seed):
         cases = pmap(drive_dense, [(seed, i) for i in range(nd)], chunksize=8) \
             + pmap(drive_patterned, [(seed, i) for i in range(npat)], chunksize=8) \
             + pmap(drive_multi, [(seed, i) for i in range(nm)], chunksize=8)
+        near = [c for c in pmap(drive_near_one, near_one_jobs(tier), chunksize=8) if c is not None]
+        o.extra['near_radius_of_convergence_cases'] = len(near)
+        cases = cases + near
         verdicts, st, tr, _ = judge_batch(work / 'judge', 'Trace_LinSolve', cases, per_shard_min=80, heap='3g')
         o.states += st
         o.transitions += tr
@@ -337,11 +427,11 @@ def run(tier, seed):
         o.absorb_verdicts(cases, verdicts, load_findings())
         kinds = {}
         for c in cases:
-            k = c['what'] + ':' + c['mode'] + (':T' if c['transpose'] else '')
+            k = c['what'] + ':' + c.get('mode', '') + (':T' if c.get('transpose') else '')
             kinds[k] = kinds.get(k, 0) + 1
         o.extra['cases_by_solver'] = kinds
-        o.extra['systems_with_infinite_solution_entry'] = sum(1 for c in cases if any(iv == [INF, INF] for col in c['X'] for iv in col))
         o.extra['distinct_block_structures'] = len({(c['tag'][3], c['tag'][4]) for c in cases if c['what'].startswith('multi')})
+        o.extra['systems_with_infinite_solution_entry'] = sum(1 for c in cases if any(iv == [INF, INF] for col in c.get('X', []) for iv in col))
         o.sample(next(c for c in cases if c['what'] == 'multi_solve' and c['n'] >= 3))
     return o
 
